@@ -320,10 +320,21 @@ fn num_line(ty: &str, b: &[u8]) -> String {
                 Ok(Ok(r)) => {
                     let rem = bb.sl(r.remaining());
                     let v = r.parsed_owned();
-                    let val: $prim = (&v).into();
                     let asref = hex(v.as_ref());
+                    // unwrap by reference, and by value through a second wrapper of the same number
+                    let val = pc(|| {
+                        let a: $prim = (&v).into();
+                        let x2: $T = a.into();
+                        let b: $prim = x2.into();
+                        (a, b)
+                    });
+                    let vals = match val {
+                        Ok((a, b)) if a == b => a.to_string(),
+                        Ok((a, b)) => format!("MISMATCH:{}:{}", a, b),
+                        Err(_) => "panic".to_string(),
+                    };
                     let tl: String = $tolen(v);
-                    format!("ok:{},asref={},rem={},tolen={}", val, asref, rem, tl)
+                    format!("ok:{},asref={},rem={},tolen={}", vals, asref, rem, tl)
                 }
             };
             let r = match pc(|| $read(b)) {
@@ -345,47 +356,45 @@ fn num_line(ty: &str, b: &[u8]) -> String {
 }
 
 fn wrap_line(ty: &str, v: &str) -> String {
+    // wrap, then unwrap by reference and by value (each may panic on its own), the serialized view, to_len
+    macro_rules! w {
+        ($T:ty, $prim:ty, $tolen:expr) => {
+            match v.parse::<$prim>() {
+                Ok(n) => {
+                    let r = pc(|| {
+                        let x: $T = n.into();
+                        (hex(x.as_ref()), $tolen(x))
+                    });
+                    let by_ref = pc(|| {
+                        let x: $T = n.into();
+                        let b: $prim = (&x).into();
+                        b
+                    });
+                    let by_val = pc(|| {
+                        let x: $T = n.into();
+                        let b: $prim = x.into();
+                        b
+                    });
+                    let back = match (by_ref, by_val) {
+                        (Ok(a), Ok(b)) if a == b => a.to_string(),
+                        (Ok(a), Ok(b)) => format!("MISMATCH:{}:{}", a, b),
+                        _ => "panic".to_string(),
+                    };
+                    match r {
+                        Ok((asref, tl)) => format!("wrap asref={} back={} tolen={}", asref, back, tl),
+                        Err(_) => "wrap panic".to_string(),
+                    }
+                }
+                Err(_) => "bad-op".into(),
+            }
+        };
+    }
     match ty {
-        "u8" => match v.parse::<u8>() {
-            Ok(n) => {
-                let x: number::U8 = n.into();
-                let back: u8 = (&x).into();
-                format!("wrap asref={} back={} tolen=-", hex(x.as_ref()), back)
-            }
-            Err(_) => "bad-op".into(),
-        },
-        "u16" => match v.parse::<u16>() {
-            Ok(n) => {
-                let x: number::U16 = n.into();
-                let back: u16 = (&x).into();
-                format!("wrap asref={} back={} tolen={}", hex(x.as_ref()), back, fmt::len_s(pc(|| x.to_len())))
-            }
-            Err(_) => "bad-op".into(),
-        },
-        "u32" => match v.parse::<u32>() {
-            Ok(n) => {
-                let x: number::U32 = n.into();
-                let back: u32 = (&x).into();
-                format!("wrap asref={} back={} tolen={}", hex(x.as_ref()), back, fmt::len_s(pc(|| x.to_len())))
-            }
-            Err(_) => "bad-op".into(),
-        },
-        "i32" => match v.parse::<i32>() {
-            Ok(n) => {
-                let x: number::I32 = n.into();
-                let back: i32 = (&x).into();
-                format!("wrap asref={} back={} tolen=-", hex(x.as_ref()), back)
-            }
-            Err(_) => "bad-op".into(),
-        },
-        "u64" => match v.parse::<u64>() {
-            Ok(n) => {
-                let x: number::U64 = n.into();
-                let back: u64 = (&x).into();
-                format!("wrap asref={} back={} tolen={}", hex(x.as_ref()), back, fmt::len_s(pc(|| x.to_len())))
-            }
-            Err(_) => "bad-op".into(),
-        },
+        "u8" => w!(number::U8, u8, |_x: number::U8| "-".to_string()),
+        "u16" => w!(number::U16, u16, |x: number::U16| fmt::len_s(pc(|| x.to_len()))),
+        "u32" => w!(number::U32, u32, |x: number::U32| fmt::len_s(pc(|| x.to_len()))),
+        "i32" => w!(number::I32, i32, |_x: number::I32| "-".to_string()),
+        "u64" => w!(number::U64, u64, |x: number::U64| fmt::len_s(pc(|| x.to_len()))),
         _ => "bad-op".into(),
     }
 }
